@@ -12,6 +12,7 @@ checked here by correspondence only.
 import Hts.Lemmas.BgzfWriter
 import Hts.Lemmas.BgzfSeqRead
 import Hts.Lemmas.BgzfStream
+import Hts.Lemmas.BgzfToyCodec
 namespace Hts.Props.C01
 open Hts.Model Hts.Model.BgzfWriter
 
@@ -205,5 +206,12 @@ example : (BgzfSeqRead.run ⟨[1, 2], [[], [3]], false⟩ [.read 1, .readByte, .
     = [([1], false), ([2], false), ([3], true), ([], true)] := by
   simp [BgzfSeqRead.run, BgzfSeqRead.step, BgzfSeqRead.read, BgzfSeqRead.readByte, BgzfSeqRead.skipEmpty,
     BgzfSeqRead.readLoop]
+
+/-- the codec laws (with the size bound) are satisfiable, and so are the header hypotheses -/
+example : ∃ c : Member.Codec, Member.Bounded c.toCodecFns := ⟨Member.Toy.codec, Member.Toy.bounded⟩
+example : Member.ReaderOK { name := [0x66, 0xe9], comment := [1] } := ⟨by decide, by decide⟩
+/-- an instance of the round trip for a concrete script and the toy codec -/
+example := roundtrip_default Member.Toy.codec Member.Toy.bounded
+  [Op.write [1, 2, 3], Op.flush, Op.write [], Op.write [4], Op.wait, Op.close] rfl
 
 end Hts.Props.C01
